@@ -56,6 +56,15 @@ func frameDecodeInto(m *jt808.JTMessage, data []byte) (ans string) {
 	if err := m.Decode(Exact(data)); err != nil {
 		return ProtoErrCode(err)
 	}
+	// Header.ProtocolVersion (1-2011 2-2013 3-2019) is the exported reading of the version bit: a decode can
+	// only tell 2013 (bit 14 clear) from 2019 (bit 14 set)
+	if int(m.Header.ProtocolVersion) != 2+int(m.Header.Property.Version) && len(frameProblems) < 50 {
+		frameProblems = append(frameProblems, FrameProblem{Kind: "protocol-version",
+			What:     "Header.ProtocolVersion does not match the version bit of the decoded frame",
+			Input:    "decode " + Hx(data),
+			Observed: fmt.Sprintf("ProtocolVersion=%d version bit=%d", m.Header.ProtocolVersion, m.Header.Property.Version),
+			Required: "ProtocolVersion = 2 (2013) when bit 14 is clear, 3 (2019) when set"})
+	}
 	return CanonMsg(m)
 }
 
